@@ -117,6 +117,22 @@ func checkC15(c *Ctx) {
 			c.Check(w == nil, "C15.2", "Add: lengthening the cache is followed by the ready signal when a full batch is present", p.InstrPos(in),
 				"every path from the append to the end of the critical section either calls signalReady or takes the !hasFullBatch() edge",
 				"path from the append to "+posOf(p, w)+" with a possibly full batch and no ready signal: a waiting Get is never woken")
+			// C15.11 arrival order: the command goes to the END of the queue (append(c.cache, cmd): the first operand is
+			// the queue itself, the appended elements are the new command only)
+			{
+				k := d.Key(st.Val)
+				okTail := false
+				if call, isCall := st.Val.(*ssa.Call); isCall && len(call.Call.Args) == 2 {
+					if ld, isLoad := call.Call.Args[0].(*ssa.UnOp); isLoad {
+						if fa2, isFA := ld.X.(*ssa.FieldAddr); isFA && fieldName(fa2.X.Type(), fa2.Field) == kCC+"cache" {
+							okTail = true
+						}
+					}
+				}
+				c.Check(okTail, "C15.11", "Add: a new command goes to the end of the queue", p.InstrPos(in),
+					"the queue is lengthened by append(c.cache, …): earlier arrivals keep their places in front of the new command",
+					"the queue is rebuilt as "+k+": the new command does not go behind the commands that arrived before it (arrival order is lost)")
+			}
 			facts := d.Facts
 			okDup := falseOf(facts, func(k string) bool { return strings.HasPrefix(k, kCCDup+"p1)") })
 			c.Check(okDup, "C15.4", "Add: duplicates are refused", p.InstrPos(in),
